@@ -403,7 +403,11 @@ def run(ctx):
             grp[(x["iface"], x["shuffle"], x["T"])].append(x["opens"])
         for key, v in grp.items():
             import os
-            tol = 1 if not key[0].startswith("tf") else (key[2] or (os.cpu_count() or 1)) + 2      # tf.data prefetches in its own threads: timing-dependent by a few shards (None = one worker per core)
+            # how far the count may differ between two runs for reasons of timing alone: tf.data prefetches in its own threads (None = one
+            # worker per core); the concurrent interface starts the shards of one batch on T threads, and the count is taken when the
+            # consumer stops — up to T-1 shards of the current batch may not have been started yet
+            Tk = key[2] or (os.cpu_count() or 1)
+            tol = Tk + 2 if key[0].startswith("tf") else (max(1, Tk - 1) if key[0].startswith("concurrent") else 1)
             if max(v) - min(v) > tol and key[1] == 0:
                 ctx.report({"kind": "opens-depend-on-size", "iface": key[0]}, f"{key}: shard opens vary with the dataset size: {v}", {"case": r["case"]})
     # ---- one slow shard at the head of the line, fast shards behind it (unshuffled concurrent interface)
